@@ -202,7 +202,9 @@ def pipeline(cases, mode="cactus", abort_children=False):
             ex.append(optext)
         explicit.append((name, ex))
         pred[name] = perr
-    impl = run_harness(explicit, mode)
+    # a case cut short because the model predicts an error must not be torn down by the harness
+    # (dropping what is left would run exactly the operation the model said not to run)
+    impl = run_harness([(name, ex + (["leakworld"] if pred[name] else [])) for name, ex in explicit], mode)
     # pass 2 with hints
     hinted = []
     for name, ex in explicit:
